@@ -15,6 +15,7 @@ a real change, so each one states its side conditions; when a side condition can
 not applied (and the proof fails, which costs at most a false alarm).
 """
 import ast
+import os
 import copy
 import os
 
@@ -452,8 +453,16 @@ def canonical_decision(st, block_fn):
     return res
 
 
+class ProverTimeout(Exception):
+    pass
+
+
 class Normalizer:
     def __init__(self, fn, sigdb=None):
+        import time as _time
+        # the prover is an optimisation of the rules' robustness, never a verdict: a function it cannot normalise within its budget is
+        # simply "not proved" (the rules then read the current version)
+        self.deadline = _time.time() + float(os.environ.get('VERIF_EQUIV_BUDGET', '8'))
         self.fn = fn
         self.sigdb = sigdb or {}
         self.params = [a.arg for a in fn.args.posonlyargs + fn.args.args + fn.args.kwonlyargs] + \
@@ -807,7 +816,13 @@ class Normalizer:
         return self.fn
 
     # ------------------------------------------------------------------
+    def tick(self):
+        import time as _time
+        if _time.time() > self.deadline:
+            raise ProverTimeout()
+
     def block(self, stmts):
+        self.tick()
         out = []
         stmts = [s for s in stmts if not (isinstance(s, ast.Pass) or (isinstance(s, ast.Expr) and isinstance(s.value, ast.Constant)))]
         # progress messages of compmech.logger are not behaviour any of the properties speaks about
@@ -818,6 +833,19 @@ class Normalizer:
         while i < len(stmts):
             st = stmts[i]
             rest = stmts[i + 1:]
+            if isinstance(st, ast.If) and not st.orelse and len(st.body) == 1 and isinstance(st.body[0], ast.Assign) and len(st.body[0].targets) == 1 \
+                    and isinstance(st.body[0].targets[0], ast.Name) and out and isinstance(out[-1], ast.Assign) and len(out[-1].targets) == 1 \
+                    and isinstance(out[-1].targets[0], ast.Name) and out[-1].targets[0].id == st.body[0].targets[0].id and st.body[0].targets[0].id not in self.params \
+                    and is_pure(out[-1].value) and is_pure(st.test) and is_pure(st.body[0].value) and cost(out[-1].value) <= 8 and cost(st.body[0].value) <= 30 \
+                    and not isinstance(out[-1].value, ast.IfExp) and not isinstance(st.body[0].value, ast.IfExp) \
+                    and any(isinstance(n, ast.Name) and n.id == st.body[0].targets[0].id for n in ast.walk(st.body[0].value)):
+                # x = A; if c(x): x = B(x)   ->   x = B(A) if c(A) else A      (A, B, c pure; A cheap; a local updated from its own value)
+                nm_ = st.body[0].targets[0].id
+                a_ = out[-1].value
+                sub_ = lambda e: inline._Subst({nm_: a_}, {}).visit(copy.deepcopy(e))
+                out[-1] = ast.Assign(targets=out[-1].targets, value=ast.IfExp(test=sub_(st.test), body=sub_(st.body[0].value), orelse=copy.deepcopy(a_)))
+                i += 1
+                continue
             if isinstance(st, ast.If):
                 st.test = canon_test(st.test)
                 exp = self.expand_table_dispatch(st)
@@ -1474,6 +1502,7 @@ class Normalizer:
         call.  Then the uses are replaced and the definition dropped.  Decided on the statement CFG."""
         from .pyflow import CFG
         for _round in range(40):
+            self.tick()
             asg = self.assignments(fn)
             cfg = CFG(fn)
             node_of = {}
@@ -1961,9 +1990,15 @@ class Normalizer:
                 if not (isinstance(st, ast.Assign) and len(st.targets) == 1 and isinstance(st.targets[0], ast.Name) and isinstance(st.value, ast.Name)):
                     continue
                 b, a = st.targets[0].id, st.value.id
-                if a == b or a in self.params or len(asg.get(a, [])) != 1 or asg[a][0][1] != 'assign':
+                if a == b or a in self.params or len(asg.get(a, [])) != 1:
                     continue
                 d = asg[a][0][0]
+                # the working name is bound by a plain assignment or as one element of a flat tuple target (a, t = call(...))
+                tuple_elem = isinstance(d, ast.Assign) and len(d.targets) == 1 and isinstance(d.targets[0], ast.Tuple) \
+                    and all(isinstance(e, ast.Name) for e in d.targets[0].elts) and sum(1 for e in d.targets[0].elts if e.id == a) == 1 \
+                    and not any(e.id == b for e in d.targets[0].elts)
+                if asg[a][0][1] != 'assign' and not tuple_elem:
+                    continue
                 if d not in blk:
                     continue
                 i = blk.index(d)
@@ -2589,6 +2624,20 @@ class ExprCanon(ast.NodeTransformer):
             return LIB_SIGS[d]
         db = self.nz.sigdb
         if d is None:
+            # (A.f if c else B.f)(...) or X[...]...f(...): a callee known only by its attribute name
+            f = call.func
+            names = set()
+            todo = [f]
+            while todo:
+                x = todo.pop()
+                if isinstance(x, ast.IfExp):
+                    todo += [x.body, x.orelse]
+                elif isinstance(x, ast.Attribute):
+                    names.add(x.attr)
+                else:
+                    names.add(None)
+            if len(names) == 1 and None not in names and ('any', next(iter(names))) in db:
+                return db[('any', next(iter(names)))]
             return None
         if d.startswith('self.') and d.count('.') == 1 and ('self', d[5:]) in db:
             return db[('self', d[5:])]
@@ -2819,7 +2868,7 @@ def equivalent(cur_fn, ref_fn, cur_exp, ref_exp, cls, cur_sig, ref_sig):
     try:
         a = normal_form(cur_fn, cur_exp, cls, cur_sig)
         b = normal_form(ref_fn, ref_exp, cls, ref_sig)
-    except RecursionError:
+    except (RecursionError, ProverTimeout):
         return False, None, None
     da, db = dump(a), dump(b)
     if da == db:
